@@ -7,20 +7,14 @@ use cw20::{
     BalanceResponse, Cw20Coin, Cw20ExecuteMsg, MinterResponse, TokenInfoResponse,
 };
 use cw20_base::msg::{InstantiateMsg, QueryMsg};
-use cw_multi_test::{Contract, ContractWrapper, Executor};
+use cw_multi_test::{Contract, Executor};
 use serde_json::{json, Value};
 
 pub const USERS: [&str; 3] = ["a1", "a2", "a3"];
 pub const ALL: [&str; 4] = ["a1", "a2", "a3", "k1"];
 
 pub fn token_code() -> Box<dyn Contract<Empty>> {
-    let c = ContractWrapper::new(
-        cw20_base::contract::execute,
-        cw20_base::contract::instantiate,
-        cw20_base::contract::query,
-    )
-    .with_migrate(cw20_base::contract::migrate);
-    Recorded::new("cw20", Box::new(c))
+    Recorded::new("cw20", crate::contract_code!(cw20_base, has_reply_cw20_base, has_sudo_cw20_base, has_migrate_cw20_base))
 }
 
 /// harness-only receiver of Send/SendFrom notifications: accepts every message
